@@ -181,7 +181,7 @@ impl<const N: usize> Exec<N> {
             log.pop();
         }
         let readd = inst.readd_seen || log.iter().any(|l| l.add_present);
-        let (cl, cc, mg) = (inst.crossed_load, inst.crossed_clone, inst.merged);
+        let (cl, cc, mg) = (inst.crossed_load && inst.suspect_load, inst.crossed_clone && inst.suspect_clone, inst.merged);
         if crossed {
             self.stats.bump("attribution.flat_replays");
             match self.flat_replay(&log, op, false) {
@@ -192,7 +192,9 @@ impl<const N: usize> Exec<N> {
                 }
                 None => {
                     // the restart / copy / merge is part of the history the basic properties quantify
-                    // over (DESIGN §3), and it is what C08 / C10 / C11 promise: both own the divergence
+                    // over (DESIGN §3), and it is what C08 / C10 / C11 promise: both own the divergence —
+                    // except that a load()/clone() whose result had exactly the internal state of its
+                    // source (hook snapshot) cannot be what makes the difference and is not blamed
                     f.message = format!("{} [the same calls on a graph that never went through load/clone/merge do not fail]", f.message);
                     if cl {
                         f.owners.push("C08");
@@ -261,6 +263,8 @@ impl<const N: usize> Exec<N> {
             merged: false,
             crossed_load: false,
             crossed_clone: false,
+            suspect_load: false,
+            suspect_clone: false,
             oplog: Vec::new(),
         });
         Ok(())
@@ -711,7 +715,12 @@ impl<const N: usize> Exec<N> {
             let fret = match self.run_op(f, op) {
                 Ok(r) => r,
                 Err(mut e) => {
-                    // the follower failed where the leader did not: that is the twin's property
+                    // the follower failed where the leader did not: that is the twin's property —
+                    // except allocator freshness after a reload, which C08 exempts and C05 owns
+                    if kind == LinkKind::Reload && e.clause.starts_with("next_id.") {
+                        e.message = format!("reloaded twin {f} of instance {i}: {}", e.message);
+                        return Err(e);
+                    }
                     e.message = format!("follower {f} of instance {i} ({kind:?}): {}", e.message);
                     for o in owners {
                         if !e.owners.contains(o) {
